@@ -172,4 +172,65 @@ PROPS = {
         "mandatory_probes": ["testrequest_sent", "disconnected_for_silence", "answer_cancelled_disconnect", "steady_periods", "inbound_1ms_before_first_deadline"],
         "assumptions": ASSUME,
     },
+    "C13": {
+        "scenarios": ["C13"],
+        "level": "fault_enumeration",
+        "quick_runs": {"C13": 1600},
+        "batch": 50,
+        "thorough_runs": {"C13": 400000},
+        "thorough_wall": 1200,
+        "rule": "each run = one termination cause from {peer EOF, peer reset, read error, write error, short write, peer stops reading (write deadline), local Close of the "
+                "client / acceptor, handler Stop, listener error} x role x injection point {before logon, inside a half-delivered Logon, logged idle, mid-traffic with 1-3 "
+                "application senders and a segmenting peer in flight (optionally with a message cut in the middle), during logout} x buffer {0,1,10} x a drawn position in the "
+                "interleaving (0-80 yields, optional delay) x seeded schedule; post-conditions after the settle bound S: socket closed, serving call returned, notification, later "
+                "sends return, census of library goroutines (runtime.Stack filtered to library frames) empty; distinct = distinct context-switch-sequence hash; non-trivial = the "
+                "fault actually fired; model_states_visited lists the (role, cause, point) triples reached",
+        "mandatory_probes": ["traffic_in_flight", "cause_inside_message", "write_error", "short_write", "write_deadline", "read_error", "local_close", "handler_stop"],
+        "assumptions": ASSUME,
+    },
+    "C03": {
+        "scenarios": ["C03", "C03S"],
+        "level": "fault_enumeration",
+        "quick_runs": {"C03": 96, "C03S": 3000},
+        "thorough_runs": {"C03": 6000, "C03S": 300000},
+        "thorough_wall": 1500,
+        "rule": "scenario C03: each run = one valid message serialised by the library's generated builders (11 types, header, groups, drawn values) whose complete single-fault "
+                "neighbourhood is enumerated at the decode seam: every single-byte substitution (len x 255), every deletion, every interior insertion ((len-1) x 256) and every proper "
+                "prefix, each offered to encoding.Unmarshal (strict) and DefaultUnmarshaller{Strict:false}; exhaustive per base message (reach_probes.variants counts them), not over the "
+                "message space. Scenario C03S: one transport fault (substitute / insert / delete / cut) at a drawn offset of an authentic multi-message stream into a live logged-on session "
+                "whose application decodes everything it is handed; oracle accepted => authentic. distinct = distinct base messages / switch-sequence hashes; non-trivial = the neighbourhood was enumerated or the fault fired",
+        "mandatory_probes": ["variants", "base_messages", "authentic_accepted", "damage_rejected_by_session"],
+        "assumptions": ASSUME + ["C03 enumerates at the post-framing seam (what DefaultHandler hands to decoders); stream-level effects are sampled by C03S"],
+    },
+    "C11": {
+        "scenarios": ["C11"],
+        "level": "exploration",
+        "quick_runs": {"C11": 4000},
+        "thorough_runs": {"C11": 600000},
+        "thorough_wall": 900,
+        "hang_is_violation": True,
+        "rule": "each run = role x buffer x before/after logon, then 1-12 hostile byte strings: grammar mutations with recomputed BodyLength/CheckSum (group counts last / non-numeric / "
+                "negative / larger or smaller than the entries, entries without first field, nested counts, prefix/suffix tags, empty and duplicated fields, fields without '=', 60 KB values), "
+                "damaged framing fields, fixed degenerate strings (empty, '8', no SOH), random bytes, randomly edited valid messages; each delivered through the real stream (segmented), at "
+                "DefaultHandler.ServeIncoming, or to encoding.Unmarshal / DefaultUnmarshaller / fix.ValueByTag directly, with an application that decodes every inbound message into its "
+                "generated type; oracle: no task ends in a panic, no run exceeds the step / wall watchdog; distinct = distinct context-switch-sequence hash; non-trivial = a preemption happened",
+        "mandatory_probes": ["via_stream", "via_serve_incoming", "via_decoder_api"],
+        "assumptions": ASSUME,
+    },
+    "C20": {
+        "scenarios": ["C20"],
+        "race": True,
+        "level": "exploration",
+        "quick_runs": {"C20": 400},
+        "thorough_runs": {"C20": 60000},
+        "thorough_wall": 1200,
+        "batch": 25,
+        "rule": "each run (a -race build) = one acceptor with 1-3 real initiators over simnet, the accepted sessions sharing one memory.Storage; per side 1-3 sender tasks, "
+                "ResendRequests and TestRequests overlapping sends, IsLogged/Context queries, OnChangeState / HandleIncoming / HandleOutgoing registration during traffic, a direction "
+                "silenced long enough for TestRequest timers to expire, then Stop / Logout / Close during traffic; the seeded scheduler decides every interleaving and its own hand-offs "
+                "are hidden from the detector (runtime.RaceDisable), so only the library's synchronisation orders accesses; a report counts iff both accesses have their innermost "
+                "non-runtime frame in a library package; distinct = distinct context-switch-sequence hash; non-trivial = a preemption happened",
+        "mandatory_probes": ["logged_on", "resend_overlapped_send", "silence_injected", "stop_during_traffic"],
+        "assumptions": ASSUME + ["the race detector judges only the pairs of accesses an execution performs; the union workload and schedule search widen that set, they do not close it"],
+    },
 }
